@@ -132,6 +132,69 @@ theorem C19_split_join (sep : UInt8) (isL isR : UInt8 → Bool) (hsL : isL sep =
     split? sep isL isR (joinB sep parts) = some parts :=
   split?_joinB sep isL isR hsL hsR parts hne hwf
 
+/-! ### histories (fifth round): the parse is a function of the tag text, not of what happened to other properties -/
+
+/-- `Args().Add` / `AddArg`: the items are appended to what the name held (nothing when it was absent). -/
+theorem C19_add_find (m : Args) (k : Bytes) (items : List Bytes) (hk : k ≠ []) :
+    find (addArg m k items) k = some ((find m k).getD [] ++ items) := by
+  cases k with
+  | nil => exact absurd rfl hk
+  | cons b rest => simp [addArg, find, formatArgType?, alookup_ainsert_same]
+
+/-- Every history is total: creating A, editing it with any list of edits, creating B — nothing panics. -/
+theorem C19_history_total (scanned req : Bool) (t t2 : Bytes) (ops : List ArgOp) :
+    ∃ a b, hist? scanned req t ops t2 = some (a, b) := by
+  have hc : ∀ s, ∃ v a, create? scanned req s = some (v, a) := by
+    intro s
+    cases scanned with
+    | true => simpa [create?] using C19_scan_total req s
+    | false => simpa [create?] using C19_total s
+  obtain ⟨va, aa, ha⟩ := hc t
+  obtain ⟨vb, ab, hb⟩ := hc t2
+  exact ⟨(va, applyOps aa ops), (vb, ab), by simp [hist?, ha, hb]⟩
+
+/-- History independence: the property B created from `t2` is what `t2` alone creates — whatever property A was created
+    from (the same text or another one) and however A's arguments were edited (`Args().Set/Add`, `SetArg/AddArg`). -/
+theorem C19_history_fresh (scanned req : Bool) (t t2 : Bytes) (ops : List ArgOp)
+    (a b : Bytes × Args) (h : hist? scanned req t ops t2 = some (a, b)) :
+    create? scanned req t2 = some b ∧
+    ∀ t' ops', ∃ a', hist? scanned req t' ops' t2 = some (a', b) := by
+  have hb : create? scanned req t2 = some b := by
+    unfold hist? at h
+    split at h
+    · rename_i va aa b' h1 h2
+      simp only [Option.some.injEq, Prod.mk.injEq] at h
+      rw [h2, h.2]
+    · exact absurd h (by simp)
+  refine ⟨hb, ?_⟩
+  intro t' ops'
+  obtain ⟨a', b', h'⟩ := C19_history_total scanned req t' t2 ops'
+  have hb' : create? scanned req t2 = some b' := by
+    unfold hist? at h'
+    split at h'
+    · rename_i va aa b'' h1 h2
+      simp only [Option.some.injEq, Prod.mk.injEq] at h'
+      rw [h2, h'.2]
+    · exact absurd h' (by simp)
+  have : b' = b := by rw [hb] at hb'; exact (Option.some.inj hb').symm
+  exact ⟨a', by rw [h', this]⟩
+
+/-- …and in particular B is optional exactly when ITS text has a required argument listing `false`, after any history. -/
+theorem C19_history_only_explicit_false (scanned req : Bool) (t t2 v : Bytes) (ops : List ArgOp) (a : Args)
+    (hp : parse? t2 = some (v, a)) :
+    ∃ A a', hist? scanned req t ops t2 = some (A, (v, a')) ∧
+      (isRequired a' = false ↔ ∃ items, alookup kRequired a = some items ∧ vFalse ∈ items) := by
+  obtain ⟨A, b, h⟩ := C19_history_total scanned req t t2 ops
+  have hb := (C19_history_fresh scanned req t t2 ops A b h).1
+  cases scanned with
+  | false =>
+    simp only [create?, hp, Bool.false_eq_true, if_false, Option.some.injEq] at hb
+    exact ⟨A, a, by rw [h, ← hb], C19_required a⟩
+  | true =>
+    obtain ⟨a', hs, hreq⟩ := C19_scan_only_explicit_false req t2 v a hp
+    simp only [create?, hs, if_true, Option.some.injEq] at hb
+    exact ⟨A, a', by rw [h, ← hb], hreq⟩
+
 /-! non-vacuity: concrete, non-trivial inputs meet the hypotheses -/
 
 example : parse? (ofString "a,required=false") = some (ofString "a", [(ofString "Required", [ofString "false"])]) := by decide
@@ -150,5 +213,12 @@ example : (scan? false (ofString "main")).map (fun va => isRequired va.2) = some
 example : (scan? true (ofString "main,required=false")).map (fun va => isRequired va.2) = some false := by decide
 -- the unbalanced corner: still total, still in range
 example : parse? (ofString "),(x") = some (ofString "),", [(ofString "X", [[]])]) := by decide
+-- a history: A from `ledger,required=true` relaxed through Args().Set; B from the same text is still required
+example : (hist? true true (ofString "l,required=true") [⟨false, ofString "required", [ofString "false"]⟩] (ofString "l,required=true")).map
+      (fun r => (r.1.2, r.2.2))
+    = some ([(ofString "Required", [ofString "false"])], [(ofString "Required", [ofString "true"])]) := by decide
+example : (hist? true true (ofString "l,required=true") [⟨false, ofString "required", [ofString "false"]⟩] (ofString "l,required=true")).map
+      (fun r => (isRequired r.1.2, isRequired r.2.2)) = some (false, true) := by decide
+example : addArg [(ofString "Q", [ofString "a"])] (ofString "q") [ofString "b"] = [(ofString "Q", [ofString "a", ofString "b"])] := by decide
 
 end Ioc.C19
